@@ -2,6 +2,7 @@ package main
 
 import (
 	"bytes"
+	"encoding/binary"
 	"fmt"
 	"os"
 
@@ -176,7 +177,98 @@ func c16(args []string) {
 		if i >= 0 && i < 2 {
 			emit("SAMPLE", fmt.Sprintf("%d bytes -> %d segments, consumed %d, err %v", len(b), len(segs), consumed, err))
 		}
+		// oracle 3: the same through the full decoder's other entry points -- the first sequence only peeked at and discarded
+		// (Next, PeekFileId, Discard), the rest decoded; and a reused decoder (PeekFileId on another stream, Reset, Decode): what
+		// it then accepts to the end the raw decoder accepts as well.  Also on a chain whose second sequence relies on a
+		// definition that only the first one carries.
+		for _, in := range append([][]byte{b}, c16DependentChain(b)...) {
+			for how := 0; how < 2; how++ {
+				skipped := 0
+				accepted := func() (ok bool) {
+					defer func() {
+						if recover() != nil {
+							ok = false
+						}
+					}()
+					dec := decoder.New(bytes.NewReader(in), decoder.WithIgnoreChecksum(), decoder.WithNoComponentExpansion())
+					if how == 0 {
+						if !dec.Next() {
+							return false
+						}
+						if _, err := dec.PeekFileId(); err != nil {
+							return false
+						}
+						if err := dec.Discard(); err != nil {
+							return false
+						}
+					} else { // the decoder peeked into this very stream before, then starts over on its tail (everything after the first sequence)
+						if _, err := dec.PeekFileId(); err != nil {
+							return false
+						}
+						first := int(in[0]) + int(binary.LittleEndian.Uint32(in[4:8])) + 2
+						if first >= len(in) {
+							return false
+						}
+						in = in[first:]
+						dec.Reset(bytes.NewReader(in), decoder.WithIgnoreChecksum(), decoder.WithNoComponentExpansion())
+					}
+					seen := 0
+					if how == 0 {
+						skipped = int(in[0]) + int(binary.LittleEndian.Uint32(in[4:8])) + 2
+					}
+					for dec.Next() {
+						fit, err := dec.Decode()
+						if err != nil {
+							return false
+						}
+						seen += int(fit.FileHeader.Size) + int(fit.FileHeader.DataSize) + 2
+					}
+					return seen > 0 && seen+skipped >= len(in) // every byte belongs to a complete sequence (as in oracle 2)
+				}
+				if len(in) < 14 {
+					continue
+				}
+				stat("oracle_other_entry_points", 1)
+				if accepted() {
+					tail := in
+					if how == 0 {
+						first := int(in[0]) + int(binary.LittleEndian.Uint32(in[4:8])) + 2
+						if first >= len(in) {
+							continue
+						}
+						tail = in[first:]
+					}
+					if _, _, rerr, _ := rawDecode(tail); rerr != nil {
+						emitJSON("FAIL", "", map[string]any{"kind": "full-accepts-raw-rejects (after PeekFileId and Discard / Reset)", "how": []string{"Next,PeekFileId,Discard,then Decode", "PeekFileId,Reset onto the tail,Decode"}[how],
+							"bytes": fmt.Sprintf("%x", in), "tail_the_raw_decoder_rejects": fmt.Sprintf("%x", tail), "raw_err": rerr.Error()})
+					}
+				}
+			}
+		}
 	}
+}
+
+// c16DependentChain: when b starts with a complete sequence whose first record is a definition, the chain b ++ (b's first
+// sequence without that definition): the second sequence uses a local message type it never defines.
+func c16DependentChain(b []byte) [][]byte {
+	if len(b) < 20 || (b[0] != 12 && b[0] != 14) {
+		return nil
+	}
+	hs, ds := int(b[0]), int(binary.LittleEndian.Uint32(b[4:8]))
+	if hs+ds+2 > len(b) || ds < 8 || b[hs]&0xE0 != 0x40 { // a normal-header definition without developer part
+		return nil
+	}
+	dl := 6 + 3*int(b[hs+5])
+	if dl >= ds {
+		return nil
+	}
+	second := append([]byte(nil), b[:hs]...)
+	binary.LittleEndian.PutUint32(second[4:8], uint32(ds-dl))
+	if hs == 14 {
+		second[12], second[13] = 0, 0 // header CRC "not set"
+	}
+	second = append(second, b[hs+dl:hs+ds+2]...)
+	return [][]byte{append(append([]byte(nil), b[:hs+ds+2]...), second...)}
 }
 
 func basetypeOf(b byte) basetype.BaseType { return basetype.BaseType(b) }
